@@ -197,7 +197,8 @@ def uncovered_blocks(prog, only=None):
                 if i not in can and any(x in can for x in ss):
                     can.add(i)
                     changed = True
-        miss = sorted(i for i in can if i not in cov)
+        # the recover block of a function with defer statements is entered only when a panic is recovered
+        miss = sorted(i for i in can if i not in cov and i != f.get("recover_block"))
         if miss:
             out[fn] = [(i, next((ins.get("pos") for ins in blocks[i]["instrs"] if ins.get("pos")), "")) for i in miss]
     return out
